@@ -69,4 +69,8 @@ def settableOK (x : String × String) : Bool :=
 /-- the fields a printer emits, in order of first emission -/
 def emitOrder (n : Node) : List String := (n.parts.flatMap (·.reads)).eraseDups
 
+/-- what a printer appends to its list of parts, in order (allocations and the final join left out), with conditions -/
+def emitted (n : Node) : List (String × String) :=
+  (n.parts.filter fun p => p.target != "return" && p.target != "s").map fun p => (p.guard, p.expr)
+
 end Csvq.AstPrint
